@@ -1,7 +1,7 @@
 """C18 — successor and bound helpers bracket the version they start from."""
 import random
 
-from harness import common, core, gens, schemes, text, vers
+from harness import common, core, dense, gens, schemes, text, vers
 
 
 def run(ctx):
@@ -24,6 +24,12 @@ def run(ctx):
     for cname in ("SemverVersion", "NginxVersion", "GolangVersion", "ComposerVersion"):
         cls = getattr(vs, cname)
         pool = gens.near_pool(r, cls, n) + gens.valid_pool(r, cls, n // 2)
+        seen_txt = {v.string for v in pool}
+        for fam in dense.families(r, cls, 2 if ctx.tier == "quick" else 20):      # same base, every suffix and decoration
+            for v in fam:
+                if v.string not in seen_txt:
+                    seen_txt.add(v.string)
+                    pool.append(v)
         for v in pool:
             evals += 1
             try:
